@@ -286,7 +286,11 @@ func runC05Stress(c *Ctx) {
 			TTLsMs: []int{50, 2000}, CostMode: "one", DelayLevel: lab.Pick(rng, []float64{0, 1, 2}),
 			EndWith: "close", Stream: uint64(i),
 		}
-		o.Name = fmt.Sprintf("c05s-w%d-nk%d-cap%d-buf%d-d%.0f", workers, nk, o.Cfg.MaxCost, o.Cfg.SetBuf, o.DelayLevel)
+		if i%3 == 2 {
+			// the "other keys" include keys that collide with k on the primary hash (different conflict hashes)
+			o.Cfg.Collide = lab.Pick(rng, []int{2, 4})
+		}
+		o.Name = fmt.Sprintf("c05s-w%d-nk%d-cap%d-buf%d-d%.0f-collide%d", workers, nk, o.Cfg.MaxCost, o.Cfg.SetBuf, o.DelayLevel, o.Cfg.Collide)
 		o.OpsPerPhase = c.N(6000, 12000) / workers
 		c.J.Case(o)
 		res := runStress(c, o)
